@@ -18,7 +18,7 @@ import (
 func TestMain(m *testing.M) { pbt.RunMain(m) }
 
 func gen(t *rapid.T) perco.GCase {
-	return perco.Generate(t, perco.Profile{MaxSteps: 26, WRead: 2, WMaint: 2, WDup: 5, WCheck: 3, Excl: perco.OpenExclusions()})
+	return perco.Generate(t, perco.Profile{MaxSteps: 26, WRead: 2, WMaint: 2, WDup: 5, WCheck: 3, WPartial: 2, Excl: perco.OpenExclusions()})
 }
 
 func run(c perco.GCase, r *pbt.Rec) error {
